@@ -35,6 +35,7 @@ CLAUSES = {
     "141": "C14: releasing / dropping a QoS 2 receipt did not write exactly one PUBREL with its own id",
     "142": "C14: releasing / dropping a receipt changed the state of another task",
     "143": "C14: a released exchange did not complete on its own PUBCOMP / completed without it",
+    "151": "C15: the DISCONNECT written after a rule-breaking acknowledgement claims normal disconnection (reason 0)",
 }
 
 
@@ -123,7 +124,9 @@ def track(ver, case, obs, want):
                 mismatch_here = True
                 closed_expected = True
                 good_peer = False
-        # --- packets written in this step
+        # --- packets written in this step (a DISCONNECT entry is (7, reason code); v3 has no reason: 0)
+        if 15 in want and ver == 5 and mismatch_here and any(tag == DISC and rc == 0 for (tag, rc) in wire):
+            return "0,151,%d" % i
         if 8 in want and prev_streaming and any(tag != CHUNK and tag != DISC for (tag, _) in wire):
             return "0,81,%d" % i
         for (tag, pid) in wire:
